@@ -29,7 +29,13 @@ def canon_staging(l):
 
 
 def part_of(line):
-    if line.startswith("R "): return "ret"
+    if line.startswith("R "):
+        t = line.split()
+        op = t[2] if len(t) > 2 else ""
+        if op in ("stats", "blobs"): return "ret_stats"
+        if op in ("open", "close"): return "ret_open"
+        if op in ("delorphans", "quarantine", "delorphan"): return "ret_orphan"
+        return "ret"
     if line.startswith(("O entries", "O blobs", "O stats", "O closed")): return "state"
     if line.startswith(("O F ", "O L ", "O S ")): return "dir"
     if line.startswith("T "): return "trace"
